@@ -68,6 +68,11 @@ func drawC10(t *rapid.T) Case {
 	c.FreshG = rapid.Bool().Draw(t, "freshg")
 	if rapid.IntRange(0, 3).Draw(t, "arrays") == 0 {
 		c.Arrays = rapid.IntRange(1, 1000).Draw(t, "arrayseed")
+		for _, e := range c10Envs[c.Env] {
+			if e == "SONIC_SYNC_GC=1" {
+				c.Arrays = 0 // a forced collection per decoded value makes the 300 large arrays take minutes
+			}
+		}
 	}
 	return c
 }
